@@ -142,6 +142,12 @@ def cond_shape(cond):
 def rules(ctx):
     P, R = ctx.prog, ctx.res
     C = ctx.cprog
+    ctx.rule('R12.7', "the order and the start the kernels see are the caller's: Matrix models keep their own integer labels "
+                      "(identity mapping, N = max_index + 1), and the initial states are laid out in the rows the kernels read", floor=8)
+    from . import C11
+    for name in ('anneal_quso', 'anneal_puso'):
+        C11.same_source_rules(ctx, 'R12.7', ctx.prog.func('_anneal.%s' % name))
+    C11.layout_agreement(ctx, 'R12.7')
     ctx.rule('R12.1', "entropy sources: clock only under seed < 0; only explicit-state PCG reachable; one local "
                       "generator per call initialised outside the anneal loop; no other entropy", floor=8)
     ctx.rule('R12.2', "seed and in_order forwarding chain Python -> wrapper -> kernel -> rand_init / ternary", floor=10)
